@@ -33,6 +33,34 @@ def shards(tier, seed, scale):
     return out
 
 
+def predict_observer(trace, scripts, initial, obs_addrs, remove_obs):
+    """log of the shared observer callback registered on @obs_addrs: it is removed (by callback) at
+    the first stop that happens on an address outside @obs_addrs, when @remove_obs"""
+    active = set(initial)
+    hits = {}
+    obs_on = True
+    log = []
+    for pos, addr in enumerate(trace):
+        if obs_on and addr in obs_addrs:
+            log.append(addr)
+        if addr not in active:
+            continue
+        n = hits.get(addr, 0)
+        hits[addr] = n + 1
+        acts = scripts[addr]
+        act = acts[min(n, len(acts) - 1)]
+        if act[0] == "selfremove":
+            active.discard(addr)
+        elif act[0] == "stop":
+            if remove_obs and obs_on and addr not in obs_addrs:
+                obs_on = False
+            for a in act[1]:
+                active.add(a)
+            for a in act[2]:
+                active.discard(a)
+    return log
+
+
 def predict(trace, scripts, initial):
     """replay the scripts over the reference address sequence.
     scripts: addr -> list of actions (one per hit, last one repeats)
@@ -117,6 +145,11 @@ def run_shard(params, rec):
             scripts[a] = [("cont",)]
             initial.append(a)
         expected = predict(trace, scripts, initial)
+        # a second, shared callback on some of the same addresses (two callbacks on one address);
+        # removing it by callback must leave the scripted callbacks of those addresses in place
+        obs_addrs = set(a for a in initial if a in executed and rng.random() < 0.6)
+        remove_obs = rng.random() < 0.7
+        expected_obs = predict_observer(trace, scripts, initial, obs_addrs, remove_obs)
         # ---- real run
         opts = dict(jit_maxline=rng.choice([1, 2, 3, 5, 50]), max_exec_per_call=rng.choice([0, 0, 1, 2, 7]))
         jitter = jitlib.new_jitter(spec, backend, prog, opts)
@@ -159,9 +192,17 @@ def run_shard(params, rec):
         for a in never[:2]:
             callbacks[a] = make_cb(a)
         live = set()
+        obs_log = []
+        obs_state = dict(on=True)
+
+        def observer(j):
+            obs_log.append(j.pc)
+            return True
         for a in initial:
             jitter.add_breakpoint(a, callbacks[a])
             live.add(a)
+        for a in sorted(obs_addrs):
+            jitter.add_breakpoint(a, observer)
         jitter.add_breakpoint(prog.end, at_end)
         for bit in list(range(1, 5)) + [10, 25]:
             jitter.add_exception_handler(1 << bit, on_exc)
@@ -178,6 +219,10 @@ def run_shard(params, rec):
                 addr, act = state["stopped"]
                 if jitter.pc != addr:
                     pc_at_stop_ok = (addr, jitter.pc)
+                if remove_obs and obs_state["on"] and addr not in obs_addrs:
+                    jitter.remove_breakpoints_by_callback(observer)
+                    obs_state["on"] = False
+                    rec.count("observer_removed_by_callback")
                 for a in act[1]:
                     if a not in live:
                         jitter.add_breakpoint(a, callbacks[a])       # after translation
@@ -233,6 +278,13 @@ def run_shard(params, rec):
                      "position %d: expected %s got %s" % (k, [hex(a) for a in exp_addrs[k:k + 3]],
                                                           [hex(a) for a in log[k:k + 3]]), wit)
             continue
+        if obs_log != expected_obs:
+            rec.fail("%s: second callback on the same addresses: log differs from the specification" % backend,
+                     "expected %s got %s" % ([hex(a) for a in expected_obs[:8]], [hex(a) for a in obs_log[:8]]),
+                     dict(wit, observer_addrs=[hex(a) for a in sorted(obs_addrs)], remove_observer=remove_obs))
+            continue
+        if obs_addrs:
+            rec.count("with_two_callbacks_on_one_address")
         # breakpoints must not change the computation
         fin = jitlib.Outcome()
         jitlib.snapshot(jitter, spec, fin)
